@@ -29,7 +29,11 @@ coordinates must be the reference's.  Batch sizes 0..n+2 run through the same or
 Correspondence: the Gallina model (coq/theories/Fluent/Action.v) runs the same program
 inside Coq; dims, coordinates, index flags, scalar coordinates and the EXACT expression tree
 of every cell (function name, batchable flag, inputs in order, static arguments, kwargs)
-are compared with the real Action.nodes; for programs that raise, the exception class."""
+are compared with the real Action.nodes; for programs that raise, the exception class.
+In a session every result is compared (check_session).  For programs made of backend functions the
+model also computes the VALUE of every cell (Fluent/ActionSem.v over Backends/Ops.v, exact integers) and
+it is compared with what evaluating the real graph gave, or with the first cell that raises and its
+exception class (check_values)."""
 import functools
 import hashlib
 import json
@@ -188,9 +192,19 @@ def ref_reduce_core(r, fname, kw, k, call):
             raise Invalid()
         out = np.stack(slices, axis=rest + ax)
     elif fname == "concat":
-        if not r.ishape:
+        ni = len(r.ishape)
+        if not ni:
             raise Invalid()
-        out = np.concatenate(slices, axis=rest)
+        if "dim" in kw:            # xarray payloads: the internal dimension by name
+            if not r.inames or kw["dim"] not in r.inames:
+                raise Invalid()
+            ax = r.inames.index(kw["dim"])
+        else:
+            ax = kw.get("axis", 0)
+            if not (-ni <= ax < ni):
+                raise Invalid()
+            ax %= ni
+        out = np.concatenate(slices, axis=rest + ax)
     elif fname in BINOPS:
         if n != 2:
             raise Invalid()
@@ -228,6 +242,9 @@ def ref_step(env, ins, seed, kind):
         r.inames = [f"i{j}" for j in range(len(ins["ishape"]))]
     elif r.inames is None:
         r.inames = list(env[ins["a"]].inames)
+        if ins["op"] in ("stack", "flatten") and kind == "xarray" and len(r.ishape) == len(r.inames) + 1:
+            ax = ins.get("axis", 0)
+            r.inames.insert(ax if ax >= 0 else ax + len(r.inames) + 1, ins.get("kw", {}).get("dim"))
     return r
 
 
@@ -267,14 +284,14 @@ def ref_step0(env, ins, seed, kind):
         kw = dict(ins.get("kw", {}))
         if op in ("stack", "flatten"):
             kw = {"axis": ins.get("axis", 0), **kw}
-        if op in ("stack", "concat") and n == 1:
-            raise Invalid()          # reduced dimensions of size 1 are outside the property
+        if op != "flatten" and n == 1:
+            raise Invalid()          # reduced dimensions of size 1 are outside the property (one argument = reduce INSIDE the array)
         batchable = fname in ("sum", "prod", "min", "max", "concat") or getattr(USER.get(fname), "batchable", False)
         if op not in ("mean", "std") and 1 < bs < n and not batchable:
             raise Invalid()
         if 1 < bs < n and (len(set(map(repr, a.coords[dd]))) != n or not all(a.indexed.values())):
             raise Invalid()
-        return ref_reduce(a, fname, kw if fname in USER or fname == "stack" else {}, dd, ins.get("keep", False))
+        return ref_reduce(a, fname, kw if fname in USER or fname in ("stack", "concat") else {}, dd, ins.get("keep", False))
     if op == "expand":
         name, axis = ins["name"], ins["axis"]
         idxs = list(range(ins["size"])) if ins.get("idxs") is None else list(ins["idxs"])
@@ -1133,10 +1150,7 @@ class Gen:
             return ["named", "named", "select", "iselect", "binC", "binA", "join", "broadcast", "transform", "bround",
                     "stack", "stack", "concat", "flatten", "expand", "expand", "expand"]
         ops = ["map", "named", "named", "reduce", "mean", "std", "select", "iselect", "binC", "binA", "join", "broadcast", "transform", "bround"]
-        if self.kind == "numpy":
-            ops += ["stack", "concat", "flatten", "expand", "expand"]
-        else:
-            ops += ["expand", "expand"]
+        ops += ["stack", "concat", "flatten", "expand", "expand"]
         return ops
 
     def step(self, op=None, cur=None):
@@ -1179,6 +1193,18 @@ class Gen:
                 ins["axis"] = rng.choice([0, 0, ni, -1] + list(range(-(ni + 1), ni + 1)))
                 if op == "stack" and not bad:
                     ins["bs"] = rng.choice([0, 1, n, n + 2])
+                if self.kind == "xarray":      # XArrayBackend.stack names the new internal dimension
+                    self.fresh += 1
+                    ins["kw"] = {"dim": f"s{self.fresh}"}
+            elif op == "concat":
+                # along any internal axis: numpy payloads by position (axis keyword), xarray payloads by name
+                ni = len(r.ishape)
+                if self.kind == "xarray":
+                    if not r.inames:
+                        return False
+                    ins["kw"] = {"dim": rng.choice(r.inames)}
+                elif ni and rng.random() < 0.6:
+                    ins["kw"] = {"axis": rng.randrange(-ni, ni)}
             if bad:
                 self.made_bad = True
                 how = rng.choice(["baddim", "nonbatch"] + (["badaxis"] if op in ("stack", "flatten") else []))
@@ -1405,7 +1431,7 @@ def gen_case(rng, seed, malformed=False, depth=None, sem=False):
 
 SESSION_FAMILIES = {"numpy": ["stack", "stack", "flatten", "expand", "expand", "concat", "named", "mean", "std", "select", "iselect",
                               "transform", "map", "reduce", "binC"],
-                    "xarray": ["expand", "expand", "named", "mean", "select", "iselect", "transform", "map", "binC"]}
+                    "xarray": ["expand", "expand", "stack", "flatten", "concat", "named", "mean", "select", "iselect", "transform", "map", "binC"]}
 
 
 def gen_session(rng, seed):
@@ -1571,7 +1597,9 @@ def run_cases(ctx, res, cases, tag, check_corr=True, sink=None):
         if out["err"] is not None:
             res.count(f"{tag}:raises:{out['err']}")
         if out["fail"] is not None:
-            f = shrink(ctx, {"signature": signature(out["fail"], case), "what": out["fail"][1], "case": case})
+            f = {"signature": signature(out["fail"], case), "what": out["fail"][1], "case": case}
+            if sum(1 for g in res.failures if g["signature"] == f["signature"]) < 2:
+                f = shrink(ctx, f)         # the first failures of a class are minimised, the rest only recorded
             res.fail(f["signature"], f["what"], f["case"])
             continue
         if ops and (len(ops) >= 2 or batched):
@@ -1651,17 +1679,24 @@ def run(ctx, res):
     rng = ctx.sub_rng("sweep")
     sw = sweep_cases(ctx.seed)
     if ctx.tier != "thorough":
-        sw = rng.sample(sw, 200)
+        # the cases whose batching needs a second round (more batches than the batch size) are few: keep a fixed share
+        def rounds2(c):
+            i = c["prog"][1]
+            n = max(len(co) for _, co in c["prog"][0]["dims"])
+            return i["bs"] >= 2 and -(-n // i["bs"]) > i["bs"]
+        multi = [c for c in sw if rounds2(c)]
+        rest = [c for c in sw if not rounds2(c)]
+        sw = rng.sample(multi, min(60, len(multi))) + rng.sample(rest, 160)
     run_cases(ctx, res, sw, "sweep", sink=sink)
     rng = ctx.sub_rng("programs")
-    progs = [gen_case(rng, ctx.seed * 1000 + i) for i in range(ctx.n(320, 9000))]
+    progs = [gen_case(rng, ctx.seed * 1000 + i) for i in range(ctx.n(340, 9000))]
     run_cases(ctx, res, progs, "prog", sink=sink)
     rng = ctx.sub_rng("malformed")
     bad = [gen_case(rng, ctx.seed * 1000 + i, malformed=True) for i in range(ctx.n(60, 1500))]
     run_cases(ctx, res, bad, "bad", sink=sink)
     # several calls on the same objects in one process, defaults left out, options objects shared
     rng = ctx.sub_rng("sessions")
-    ses = [gen_session(rng, ctx.seed * 1000 + i) for i in range(ctx.n(110, 3000))]
+    ses = [gen_session(rng, ctx.seed * 1000 + i) for i in range(ctx.n(110, 2000))]
     run_cases(ctx, res, ses, "session", sink=sink)
     pairs = pair_sessions(ctx.seed)
     if ctx.tier != "thorough":
@@ -1669,7 +1704,7 @@ def run(ctx, res):
     run_cases(ctx, res, pairs, "pair", sink=sink)
     # values, not only wiring: programs of backend functions, evaluated inside Coq on the same integer arrays
     rng = ctx.sub_rng("sem")
-    sem = [gen_sem(rng, ctx.seed * 1000 + i, malformed=(i % 8 == 7)) for i in range(ctx.n(110, 3000))]
+    sem = [gen_sem(rng, ctx.seed * 1000 + i, malformed=(i % 8 == 7)) for i in range(ctx.n(110, 1500))]
     run_cases(ctx, res, sem, "sem", sink=sink)
     flush_coq(ctx, res, sink)
     if LEAKS:
@@ -1696,8 +1731,10 @@ def search(ctx, res):
 
 
 def without(prog, j):
-    """the program with instruction j removed (None if a later instruction uses its result)"""
-    if any(i.get("a") == j or i.get("b") == j for i in prog[j + 1:]):
+    """the program with instruction j removed; later uses of its result are pointed at its own operand
+    (None if it has none, i.e. a source that is still used)"""
+    used = any(i.get("a") == j or i.get("b") == j for i in prog[j + 1:])
+    if used and ("a" not in prog[j] or prog[j]["op"] == "source"):
         return None
     out = []
     for k, i in enumerate(prog):
@@ -1705,8 +1742,11 @@ def without(prog, j):
             continue
         i = dict(i)
         for key in ("a", "b"):
-            if key in i and i[key] > j:
-                i[key] -= 1
+            if key in i and k > j:
+                if i[key] == j:
+                    i[key] = prog[j]["a"]
+                elif i[key] > j:
+                    i[key] -= 1
         out.append(i)
     return out
 
